@@ -667,26 +667,39 @@ def literal_iteration(a, x):
             by_ref = 1
             continue
         break
-    # through references / unsizing to the array itself
+    src, r = literal_array_of(a, src, a.term_point(nx[3]))
+    by_ref = max(by_ref, r)
+    if src is None:
+        return None
+    if derefs != by_ref:
+        return None
+    return list(src[3])
+
+
+def literal_array_of(a, src, point):
+    """through references / unsizing to an array literal: -> (('agg', 'array', …) or None, 1 if a reference was followed)"""
+    by_ref = 0
     for _ in range(6):
         if src[0] == 'addr' and not src[2]:
             if src[1][0] == 'local':
-                src = a.load(src[1], (), a.term_point(nx[3]))
-                by_ref = max(by_ref, 1)
+                src = a.load(src[1], (), point)
+                by_ref = 1
                 continue
             if src[1][0] == 'cell':
                 src = src[1][1]
-                by_ref = max(by_ref, 1)
+                by_ref = 1
+                continue
+            if src[1][0] == 'promoted':
+                src = src[1][2]
+                by_ref = 1
                 continue
         if src[0] == 'cast' and src[1].startswith('PointerCoercion(Unsize'):
             src = src[3]
             continue
         break
     if not (src[0] == 'agg' and src[1] == 'array'):
-        return None
-    if derefs != by_ref:
-        return None
-    return list(src[3])
+        return None, by_ref
+    return src, by_ref
 
 
 def explicit_len_guard(a, facts, param=1):
